@@ -8,7 +8,7 @@ from typing import Dict, List, Optional, Set, Tuple
 from ..core import astutil as A
 from ..core.index import AnalysisError, FuncInfo, external_module
 from ..selftest import M
-from .common import (BASE_OUTLINE, OTF_OUTLINE, T, attr_stores, calls_named, conds, entails, every_origin, fold_body,
+from .common import (may_conds, is_early_exit_guard, BASE_OUTLINE, OTF_OUTLINE, T, attr_stores, calls_named, conds, entails, every_origin, fold_body,
                      key, need, where)
 
 FID = "ufo2ft.fontInfoData"
@@ -70,6 +70,7 @@ def run(prog, chk):
     chk.guard(r167, prog, chk)
     chk.guard(r168, prog, chk)
     chk.guard(r169, prog, chk)
+    chk.guard(r1610, prog, chk)
 
 
 # ------------------------------------------------------------------------- tables
@@ -877,7 +878,59 @@ def r169(prog, chk):
 
 
 
+
+# ----------------------------------------------------------------------------- R16.10
+def r1610(prog, chk):
+    """A name record built from the info attributes is only left out when a record with the SAME key (name ID, platform,
+    encoding, language) already exists, and the explicit openTypeNameRecords are written with their own four keys:
+    localized records never displace the built English ones and explicit records always appear."""
+    ix = prog.ix
+    fi = ix.get_method(BASE_OUTLINE, "setupTable_name", own=True)
+    sets = [c for c in calls_named(fi, "setName")]
+    need(len(sets) >= 2, f"cannot interpret {fi.short}: setName calls")
+
+    def val(e):
+        """canonical text of a key argument: single-definition locals are expanded"""
+        if isinstance(e, ast.Name):
+            ds = prog.reaching(fi, e.id, e)
+            if len(ds) == 1 and ds[0].kind == "assign" and ds[0].element()[1] is None and ds[0].element()[0] is not None:
+                return val(ds[0].element()[0])
+        if isinstance(e, ast.Constant):
+            return repr(e.value)
+        return T(e)
+    n_guarded = n_records = 0
+    for c in sets:
+        need(len(c.args) == 5, f"cannot interpret {fi.short}: `{T(c, 60)}`")
+        keys = [val(a) for a in c.args[1:5]]
+        gets = [g for g in may_conds(prog, fi, c) if isinstance(g.test, ast.Call) and A.callee_name(g.test) == "getName"]
+        if gets:
+            n_guarded += 1
+            for g in gets:
+                gk = [val(a) for a in g.test.args]
+                ok = gk == keys and g.polarity is False
+                chk.ob("R16.10", f"{fi.short}|{A.keytext(fi.node, c)}|a built record is only skipped when a record with the same four keys exists", ok, where(fi, c), detail=f"getName{tuple(gk)} vs setName keys {tuple(keys)}",
+                       message=f"{fi.short}: the built name record is skipped under `{T(g.test, 60)}`, which does not name the same (nameID, platformID, encodingID, languageID) as the record "
+                               f"it would write: a record in another language / encoding suppresses the built one")
+        rec_loop = [a_ for a_ in ix.ancestors(c) if isinstance(a_, ast.For) and "openTypeNameRecords" in T(a_.iter)]
+        if rec_loop:
+            n_records += 1
+            want = ["nameID", "platformID", "encodingID", "languageID"]
+            got = []
+            for a in c.args[1:5]:
+                ds = prog.reaching(fi, a.id, a) if isinstance(a, ast.Name) else []
+                got.append(ds[0].value.slice.value if len(ds) == 1 and isinstance(ds[0].value, ast.Subscript) and isinstance(ds[0].value.slice, ast.Constant) else T(a))
+            okr = got == want and not [g for g in may_conds(prog, fi, c) if g.kind in ("if", "boolop") and not is_early_exit_guard(prog, fi, g)]
+            chk.ob("R16.10", f"{fi.short}|{A.keytext(fi.node, c)}|explicit name records are written unconditionally under their own four keys", okr, where(fi, c), detail=str(got),
+                   message=f"{fi.short}: an explicit openTypeNameRecords entry is not written under its own (nameID, platformID, encodingID, languageID), or only conditionally")
+    need(n_guarded >= 1 and n_records >= 1, f"cannot interpret {fi.short}: built / explicit record writers")
+    chk.minimum("R16.10", 2)
+
+
 MUTANTS = [
+    M("built name record skipped when any language has that name ID (seeded C16f)", "ufo2ft/outlineCompiler.py", "BaseOutlineCompiler.setupTable_name",
+      "name.getName(nameId, platformId, platEncId, langId)", "name.getName(nameId, platformId, platEncId)", rule="R16.10"),
+    M("explicit name records written as English", "ufo2ft/outlineCompiler.py", "BaseOutlineCompiler.setupTable_name",
+      "langId = nameRecord['languageID']", "langId = 1033", rule="R16.10"),
     M("bold style sets the bold bit for everything else instead (mutation scan k=149)", "ufo2ft/outlineCompiler.py", "BaseOutlineCompiler.setupTable_OS2",
       "styleMapStyleName == 'bold'", "styleMapStyleName != 'bold'", rule="R16.9"),
     M("macStyle italic bit on bold", "ufo2ft/outlineCompiler.py", "BaseOutlineCompiler.setupTable_head", "macStyle = [0]", "macStyle = [1]", rule="R16.9"),
